@@ -13,6 +13,7 @@ CONSTANTS
     InsertFirst = TRUE
     WithHold = TRUE
     MaxLen = 9
+    V6Flows = {}
     BigOn = 3
     ErrReadNeedsReply = TRUE
     WithFault = FALSE
